@@ -533,4 +533,39 @@ class is_flag_active_visitor<Flag, flag_and>""")]),
                 pf, this, evt,
                 static_cast<EventSource>(EVENT_SOURCE_MSG_QUEUE)));
     }""")]),
+ # ---- continuation session (rounds 14-15)
+ dict(name='chain-stop-back-deferred-dropped', prop='C01', rule='C01.chain', edits=[('include/boost/msm/back/dispatch_table.hpp',
+      'if (!(res & (HANDLED_TRUE | HANDLED_DEFERRED)))', 'if (!(res & HANDLED_TRUE))')]),
+ dict(name='exit-pt-assign-defaulted-back', prop='C15', rule='C15.keep', edits=[(B, """            ExitPoint::operator=(rhs);
+            return *this;""", """            ExitPoint::operator=(rhs);
+            m_forward = rhs.m_forward;
+            return *this;""")]),
+ dict(name='completion-arm-not-deferred-back', prop='C10', rule='C10.first', edits=[(B, "eventless_helper(this,(HANDLED_TRUE & handled));", "eventless_helper(this,(HANDLED_TRUE & handled) && !(HANDLED_DEFERRED & handled));")]),
+ dict(name='pool-limit-plain-break', prop='C10', rule='C10.pool-limit', edits=[(MP, """                if (processed_events >= max_events &&
+                    !completion_pending(event_pool))""", """                if (processed_events >= max_events)""")]),
+ dict(name='pool-limit-mark-dropped', prop='C10', rule='C10.pool-limit', edits=[(MP, ": event_occurrence(&try_process, true), m_region_id(region_id)", ": event_occurrence(&try_process), m_region_id(region_id)")]),
+ dict(name='copy-ctor-not-a-copy-ctor-back', prop='C15', rule='C15.copy-ctor', edits=[(B, """     state_machine(library_sm const& rhs)
+         : Derived(rhs)
+""", """     template <class Other, class = typename ::boost::enable_if< ::boost::is_same<Other,library_sm> >::type>
+     state_machine(Other const& rhs, int /*deep copy*/)
+         : Derived(rhs)
+""")]),
+ dict(name='refactor-chain-stop-split-tests', prop='C01', refactor=True, edits=[('include/boost/msm/back/dispatch_table.hpp',
+      'if (!(res & (HANDLED_TRUE | HANDLED_DEFERRED)))', 'if (!(res & HANDLED_TRUE) && !(res & HANDLED_DEFERRED))'),
+      ('include/boost/msm/back11/dispatch_table.hpp', 'if (!(res & (::boost::msm::back::HANDLED_TRUE | ::boost::msm::back::HANDLED_DEFERRED)))',
+       'if (!(res & ::boost::msm::back::HANDLED_TRUE) && !(res & ::boost::msm::back::HANDLED_DEFERRED))')]),
+ dict(name='refactor-pool-limit-helper-renamed', prop='C10', refactor=True, count=10, edits=[(MP, 'completion_pending', 'has_unprocessed_completion')]),
+ dict(name='refactor-exit-pt-assign-self-test', prop='C15', refactor=True, edits=[(B, """            ExitPoint::operator=(rhs);
+            return *this;""", """            if (this != &rhs)
+            {
+                ExitPoint::operator=(rhs);
+            }
+            return *this;"""), (B11, """            ExitPoint::operator=(rhs);
+            return *this;""", """            if (this != &rhs)
+            {
+                ExitPoint::operator=(rhs);
+            }
+            return *this;""")]),
+ dict(name='refactor-completion-arm-compare-false', prop='C10', refactor=True, edits=[(B, "eventless_helper(this,(HANDLED_TRUE & handled));", "eventless_helper(this,(HANDLED_TRUE & handled) != HANDLED_FALSE);"),
+      (B11, "eventless_helper(this,(::boost::msm::back::HANDLED_TRUE & handled));", "eventless_helper(this,(::boost::msm::back::HANDLED_TRUE & handled) != ::boost::msm::back::HANDLED_FALSE);")]),
 ]
